@@ -603,6 +603,25 @@ func NewRaft(conf *Config, fsm FSM, logs LogStore, stable StableStore, snaps Sna
 		return nil, err
 	}
 
+	// A MonotonicLogStore is cleared after a snapshot has been installed from
+	// the leader. If the server stopped in between, the log is still the old
+	// one. It is from another history than the snapshot when the entry it holds
+	// at the snapshot's last index has a different term; nothing in it can be
+	// used then, and left in place it would sit under the entries appended
+	// after the snapshot.
+	if mlogs, ok := logs.(MonotonicLogStore); ok && mlogs.IsMonotonic() {
+		if snapIdx, snapTerm := r.getLastSnapshot(); snapIdx > 0 {
+			var entry Log
+			if err := logs.GetLog(snapIdx, &entry); err == nil && entry.Term != snapTerm {
+				if err := r.removeOldLogs(); err != nil {
+					return nil, fmt.Errorf("failed to clear the log left over from before the installed snapshot: %v", err)
+				}
+				r.setLastLog(snapIdx, snapTerm)
+				lastLog = Log{Index: snapIdx, Term: snapTerm}
+			}
+		}
+	}
+
 	if err := r.restoreFromCommittedLogs(); err != nil {
 		return nil, err
 	}
